@@ -19,7 +19,9 @@ package resolver
 // Observed: every verdict, the ledger (NSEC3-hash counter, exhaustion bit, first latched kind).  The case gives the
 // shape in PROCESSING order, computed here independently of the code under test: the suffixes of the name (root
 // excluded) longest first, for each what the record set says about it and about the wildcard below it — hashes by
-// miekg's dns.HashName, match / cover by this file's own interval arithmetic.
+// miekg's dns.HashName. What a lookup of a name finds in the record set is NOT computed here (wave 9): the case carries
+// the usable records (owner / next digest, Opt-Out, type bitmap) and each name's digest, and the model decides match /
+// cover / ambiguity with the srcgen translations of dnssec.aggressiveNSEC3Covers and dnssec.typesSet.
 
 import (
 	"bytes"
@@ -219,29 +221,6 @@ func vC12N3Hash(name string, halg uint8, iter int, salt string) []byte {
 	return raw
 }
 
-func vC12N3Covers(rec vC12N3Rec, h []byte) bool {
-	on := bytes.Compare(rec.owner, rec.next)
-	switch {
-	case on == 0:
-		return !bytes.Equal(h, rec.owner)
-	case on < 0:
-		return bytes.Compare(rec.owner, h) < 0 && bytes.Compare(h, rec.next) < 0
-	default:
-		return bytes.Compare(rec.owner, h) < 0 || bytes.Compare(h, rec.next) < 0
-	}
-}
-
-func vC12N3Has(types []uint16, ts ...uint16) bool {
-	for _, t := range types {
-		for _, u := range ts {
-			if t == u {
-				return true
-			}
-		}
-	}
-	return false
-}
-
 func TestVerifC12N3(t *testing.T) {
 	path := os.Getenv("VERIF_OUT")
 	if path == "" {
@@ -304,6 +283,7 @@ func TestVerifC12N3(t *testing.T) {
 		var descs []map[string]any
 		goFail := ""
 		anyWork := false
+		prefixClash := false
 		for _, p := range plan.Proofs {
 			zone, salt := vC12N3Zones[p.Zone], vC12N3Salts[p.Zone]
 			qname := zone
@@ -400,6 +380,22 @@ func TestVerifC12N3(t *testing.T) {
 
 			// ---- the shape in processing order, computed independently of the code under test
 			zoneLabels := dns.SplitDomainName(zone)
+			// digests are handed over by their first six octets (order and equality are those of the whole digests as long as
+			// distinct digests differ within them; checked below)
+			full := map[string]string{}
+			clash := false
+			pref := func(h []byte) uint64 {
+				v := uint64(0)
+				for _, b := range h[:6] {
+					v = v<<8 | uint64(b)
+				}
+				key := fmt.Sprint(v)
+				if prev, ok := full[key]; ok && prev != string(h) {
+					clash = true
+				}
+				full[key] = string(h)
+				return v
+			}
 			describe := func(name string) string {
 				labels := dns.SplitDomainName(name)
 				inz := len(labels) >= len(zoneLabels)
@@ -407,50 +403,19 @@ func TestVerifC12N3(t *testing.T) {
 					inz = strings.EqualFold(labels[len(labels)-i], zoneLabels[len(zoneLabels)-i])
 				}
 				id := idOf(fmt.Sprintf("%d|%d|%s|%s|%s", p.Halg, p.Iter, salt, zone, strings.ToLower(name)))
-				look, oo, tys := 0, false, 0
+				h := uint64(0)
 				if inz {
-					h := vC12N3Hash(name, 1, p.Iter, salt)
-					matches, covers := 0, 0
-					for _, rec := range recs {
-						switch {
-						case bytes.Equal(rec.owner, h):
-							matches++
-							if vC12N3Has(rec.types, qtype, dns.TypeCNAME) {
-								tys |= 1
-							}
-							if vC12N3Has(rec.types, dns.TypeSOA) {
-								tys |= 2
-							}
-							if vC12N3Has(rec.types, dns.TypeNS) {
-								tys |= 4
-							}
-							if vC12N3Has(rec.types, dns.TypeDNAME) {
-								tys |= 8
-							}
-							if vC12N3Has(rec.types, dns.TypeDS) {
-								tys |= 16
-							}
-						case vC12N3Covers(rec, h):
-							covers++
-							oo = rec.optout
-						}
-					}
-					switch {
-					case covers >= 2 || (matches >= 1 && covers >= 1):
-						look = 3
-					case matches >= 1:
-						look = 1
-					case covers == 1:
-						look = 2
-					}
-					if look != 2 {
-						oo = false
-					}
-					if look != 1 {
-						tys = 0
-					}
+					h = pref(vC12N3Hash(name, 1, p.Iter, salt))
 				}
-				return fmt.Sprintf("mk_n3 %d %s %d %s %d", id, vC12Flag(inz), look, vC12Flag(oo), tys)
+				return fmt.Sprintf("(%d%%nat,%s,%d)", id, vC12Flag(inz), h)
+			}
+			var ring []string
+			for _, rec := range recs {
+				var ts []string
+				for _, t := range rec.types {
+					ts = append(ts, fmt.Sprint(t))
+				}
+				ring = append(ring, fmt.Sprintf("(%d,%d,%s,[%s])", pref(rec.owner), pref(rec.next), vC12Flag(rec.optout), strings.Join(ts, ";")))
 			}
 			var sufs []string
 			labels := dns.SplitDomainName(qname)
@@ -463,8 +428,11 @@ func TestVerifC12N3(t *testing.T) {
 				nc := strings.Join(labels[len(labels)-(p.SigLab+1):], ".") + "."
 				sufs = []string{fmt.Sprintf("(%s,%s)", describe(nc), describe("*."+nc))}
 			}
-			shapes = append(shapes, fmt.Sprintf("(%d,%s,(%d,%d,%d),%s,[%s])", p.Kind, vC12Flag(p.Kind == 1 && p.DS), p.Halg, p.Flags, p.Iter,
-				vC12Flag(p.Mixed), strings.Join(sufs, ";")))
+			shapes = append(shapes, fmt.Sprintf("(%d,%s,(%d,%d,%d),%s,%d,[%s],[%s])", p.Kind, vC12Flag(p.Kind == 1 && p.DS), p.Halg, p.Flags, p.Iter,
+				vC12Flag(p.Mixed), qtype, strings.Join(ring, ";"), strings.Join(sufs, ";")))
+			if clash {
+				prefixClash = true
+			}
 
 			// ---- the code under test
 			signer := zone
@@ -532,7 +500,8 @@ func TestVerifC12N3(t *testing.T) {
 		pj, _ := json.Marshal(plan)
 		b, _ := json.Marshal(map[string]any{
 			"k": "n3-" + ms + "-" + mm,
-			"coq": fmt.Sprintf("CaseN3 %d %d %s [%s] [%s] %d %d %d", mode, plan.H, vC12Flag(plan.Memo), strings.Join(shapes, ";"),
+			"inconclusive": prefixClash, // two different digests agree in their first six octets: not expressible in the case
+			"coq": fmt.Sprintf("CaseN3R %d %d %s [%s] [%s] %d %d %d", mode, plan.H, vC12Flag(plan.Memo), strings.Join(shapes, ";"),
 				strings.Join(verdicts, ";"), snap.NSEC3Hashes, exh, first),
 			"nontrivial": anyWork || exh != 0 || snap.NSEC3Hashes >= 3,
 			"go_fail":    goFail,
